@@ -49,7 +49,7 @@ class Instr(object):
             return [e[1]] + ([e[2][1]] if e[2][0] == 'line' else [])
         if k == 'copy':
             return [e[2]] if e[1] is None else []
-        if k == 'tax':
+        if k in ('tax', 'divstatus'):
             return [e[1]]
         return []
 
@@ -265,6 +265,14 @@ def parse(text, label, ordered_labels=None):
         if m:
             done(('copy', find_form(m.group('f')), m.group('a')), m, b)
     if expr is None:
+        # "Divide line 10 by $5,000 ($7,500 if head of household; $10,000 if married filing jointly or qualifying widow(er))."
+        m = re.match(rf'^Divide line (?P<a>{LAB}) by \$(?P<d>[\d,]+) \(\$(?P<h>[\d,]+) if head of household; \$(?P<j>[\d,]+) if married filing jointly or qualifying (?:widow\(er\)|surviving spouse)\)\.', b)
+        if m:
+            num = lambda t: float(t.replace(',', ''))
+            done(('divstatus', m.group('a'), {'Single': num(m.group('d')), 'MarriedFilingSeparately': num(m.group('d')), 'HeadOfHousehold': num(m.group('h')),
+                                             'MarriedFilingJointly': num(m.group('j')), 'QSS': num(m.group('j'))}), m, b)
+            rest = ''
+    if expr is None:
         m = re.match(rf'^Divide line (?P<a>{LAB}) by line (?P<b>{LAB})\.', b)
         if m and '1.000' in b:
             expr = ('div1', m.group('a'), m.group('b'))
@@ -283,12 +291,14 @@ def parse(text, label, ordered_labels=None):
 
 
 # ---------------------------------------------------------------------------
-def evaluate(expr, get, tax=None):
+def evaluate(expr, get, tax=None, status=None):
     """get(label) -> float (0.0 when blank/absent). Returns float or None (not applicable).
     tax(amount) -> the year's income tax on that taxable income for the return's filing status (needed by 'tax')"""
     k = expr[0]
     if k == 'tax':
         return None if tax is None else tax(get(expr[1]))
+    if k == 'divstatus':
+        return None if status not in expr[2] else get(expr[1]) / expr[2][status]
     if k in ('addf', 'sumstmt'):
         return None            # operands live on another form / on the payer statements: resolved by the caller (end-to-end only)
     if k == 'floor0':
